@@ -6,7 +6,8 @@ RULE = ("exhaustive (secret, nonce) over Z_q x Z_q of p=23 for every base in the
         "identity and g) on num-bigint (nonce chosen through the scripted RNG) and random nonces on malachite; boundary "
         "secrets 0,1,q-1 and random at 16/62/2048 bits; labels empty/short/long; every prover output and every verifier "
         "decision compared with the Gallina model computing the real SHA-512 transcript; serialization in the loop; "
-        "ristretto: Schnorr/CP/popk/decryption proofs with default, explicit-standard and derived bases, prover outputs and decisions compared with the Gallina ristretto255 model")
+        "ristretto: Schnorr/CP/popk/decryption proofs with default, explicit-standard and derived bases, prover outputs and decisions compared with the Gallina ristretto255 model"
+        " Added in session 3: labels at digest-size / power-of-two length boundaries;")
 
 
 from props.util import boundary_labels
